@@ -19,7 +19,10 @@ Statement-level freedom kept as freedom:
    signs); Excel's documented convention is only counted (NOTE on mismatch).
  * MOD of decimals that are not binary-exact: when the exact remainder is 0
    the float remainder may come out just below the divisor (0.3 mod 0.1);
-   accepted and counted.
+   accepted and counted -- but only together with an INT(n/m) that is one
+   less: INT(n/m) and MOD(n, m) are judged as a pair (ModPairs of the spec),
+   so that n = m*INT(n/m) + MOD(n, m) holds for every vector of the M phase,
+   through the library and through formulas.
  * "sampled binary floats": only the magnitude laws (multiple, bracket,
    adjacency, fixed points) against the shortest-repr decimal, with tolerance;
    the ROUND family over the whole range of magnitudes 1e-300 .. 1e300 (a
@@ -240,6 +243,36 @@ class Judge:
                   (len(repr(n)) + len(repr(m)), abs(n) + abs(m)))
         return False
 
+    def identity(self, path, args, q_got, r_got, pairs, j, cls, total=None):
+        """n = m*INT(n/m) + MOD(n, m): (INT(n/m), MOD(n, m)) is one of the pairs
+        <<q, r>> the spec allows (r at scale 10^j; the caller drops the pair
+        with the remainder 'wrapped' to the divisor for binary-exact operands);
+        `total` = the value of the formula m*INT(n/m)+MOD(n,m) where it was
+        evaluated as one formula"""
+        n, m = args
+        fn = 'm*INT(n/m)+MOD(n,m)'
+        self.v.case((fn, path, n, m))
+        scale = max(abs(n), abs(m))
+        ok = is_num(q_got) and is_num(r_got) and (total is None or is_num(total))
+        if ok:
+            ok = any(q_got == q and near(r_got, Fraction(r, P10[j]), scale=scale)
+                     for q, r in pairs)
+            if total is None:
+                total = m * q_got + r_got
+            ok = ok and near(total, n, scale=scale)
+        if ok:
+            return True
+        self.fail(fn, path,
+                  f'n = m*INT(n/m) + MOD(n, m) fails for n={n!r}, m={m!r} [{path}, {cls}]: '
+                  f'INT(n/m) = {show(q_got)}, MOD(n, m) = {show(r_got)}, together '
+                  f'{show(total)}; allowed (INT, MOD) pairs '
+                  f'{[(q, float(Fraction(r, P10[j]))) for q, r in pairs]}',
+                  dict(fn=fn, path=path, args=[plain(n), plain(m)], cls=cls, judge='identity',
+                       pairs=[list(pr) for pr in pairs], j=j,
+                       got=[show(q_got), show(r_got)]),
+                  (len(repr(n)) + len(repr(m)), abs(n) + abs(m)))
+        return False
+
     def law(self, fn, path, args, ok, text, cls='float'):
         self.v.case((fn, path) + tuple(args))
         if not ok:
@@ -383,13 +416,24 @@ class Driver:
                 self.J.exact(fn, path, (x,), got, vec[fn.lower()], vec['cls'])
 
     # -- MOD ----------------------------------------------------------------
+    @staticmethod
+    def pairs(vec, strict):
+        """the allowed (INT(n/m), MOD(n, m)) pairs; binary-exact operands have
+        an exact quotient: only the exact pair"""
+        exact = [vec['q'], vec['mod']]
+        return [pr for pr in vec['pairs'] if not strict or list(pr) == exact]
+
     def lib_M(self, vec):
         k, j, p, cls = vec['k'], vec['j'], vec['m'], vec['cls']
         strict = binary_exact(k, j) and binary_exact(p, j)
         want = Fraction(vec['mod'], P10[j])
         for n in self.numbers(k, j):
             for m in number(p, j):
-                self.J.mod(lib_path(n), (n, m), call(self.F['MOD'], n, m), want, strict, cls)
+                r = call(self.F['MOD'], n, m)
+                self.J.mod(lib_path(n), (n, m), r, want, strict, cls)
+                # the quotient as the formula INT(n/m) computes it
+                self.J.identity(lib_path(n), (n, m), call(self.F['INT'], n / m), r,
+                                self.pairs(vec, strict), j, cls)
 
     def formulas_M(self, vecs):
         rows, ops = [], []
@@ -397,15 +441,16 @@ class Driver:
             strict = binary_exact(v['k'], v['j']) and binary_exact(v['m'], v['j'])
             op = self.operand()
             ops.append(op)
-            fs = ['MOD({x},{b})']
-            if strict:    # the identity n = m*INT(n/m) + MOD(n, m), and INT(n/m)
-                fs += ['{b}*INT({x}/{b})+MOD({x},{b})', 'INT({x}/{b})']
+            # MOD, the identity n = m*INT(n/m) + MOD(n, m), and INT(n/m)
+            fs = ['MOD({x},{b})', '{b}*INT({x}/{b})+MOD({x},{b})', 'INT({x}/{b})']
             rows.append((number(v['k'], v['j'])[0], number(v['m'], v['j'])[0],
-                         [f.replace('{x}', op) for f in fs]))
-        for vec, op, (n, m, fs), res in zip(vecs, ops, rows, eval_formulas(rows)):
-            strict = len(fs) == 3
+                         [f.replace('{x}', op) for f in fs], strict))
+        results = eval_formulas([r[:3] for r in rows])
+        for vec, op, (n, m, fs, strict), res in zip(vecs, ops, rows, results):
             self.J.mod(formula_path(op), (n, m), res[0],
                        Fraction(vec['mod'], P10[vec['j']]), strict, vec['cls'])
+            self.J.identity(formula_path(op), (n, m), res[2], res[0],
+                            self.pairs(vec, strict), vec['j'], vec['cls'], total=res[1])
             if strict:
                 self.J.exact('m*INT(n/m)+MOD(n,m)', 'formula', (n, m), res[1],
                              Fraction(vec['k'], P10[vec['j']]), vec['cls'])
@@ -604,8 +649,9 @@ def run(tier, seed):
              'TLC enumerator (small k, grid, exact multiples, exact ties, +-1 '
              'neighbours, mirror images) for every (j, digits) / divisor / '
              'significance; results compared with the exact rational within 1e-12 '
-             'relative; CEILING/FLOOR with a negative argument: either neighbour; '
-             'floats: magnitude laws only')
+             'relative; (INT(n/m), MOD(n, m)) judged as a pair bound by '
+             'n = m*INT(n/m) + MOD(n, m); CEILING/FLOOR with a negative argument: '
+             'either neighbour; floats: magnitude laws only')
     v.assumptions = ['TLC evaluates Rounding.tla definitions correctly',
                      'float(k/10^j) has the shortest repr k/10^j for |k| <= 10^6, j <= 6',
                      'CEILING/FLOOR sign conventions for negative arguments are not '
@@ -622,6 +668,23 @@ def replay(path):
     fn, args = case['fn'], case['args']
     base = {'CEILING.MATH1': 'CEILING.MATH', 'FLOOR.MATH1': 'FLOOR.MATH'}.get(fn, fn)
     print(rec['desc'])
+    if case.get('judge') == 'identity':
+        n, m = args
+        scale = max(abs(n), abs(m))
+        ok = True
+        for how, (q, r) in (
+                ('library', (call(F['INT'], n / m), call(F['MOD'], n, m))),
+                ('formula', tuple(call(xl.evalf, f, dict(A1=n, B1=m))
+                                  for f in ('=INT(A1/B1)', '=MOD(A1,B1)')))):
+            print(f'  now ({how}): INT(n/m) = {show(q)}, MOD(n, m) = {show(r)}')
+            ok &= is_num(q) and is_num(r) and near(m * q + r, n, scale=scale) and any(
+                q == pq and near(r, Fraction(pr, P10[case['j']]), scale=scale)
+                for pq, pr in case['pairs'])
+        if ok:
+            print(f'{PID}: replay passes now')
+            return 0
+        print(f'VIOLATION property={PID} replay={path}')
+        return 1
     if base not in F:
         print('  (composite formula or law; see the description)')
         return 1
